@@ -229,7 +229,8 @@ pub fn record(args: &[String]) {
             for bits in [1usize, 2, 3, 4, 8] {
                 for rep in 0..(if thorough { 4 } else { 2 }) {
                     let v: V = Poplar1::new(bits);
-                    let ctx = rng.bytes(rep % 3);
+                    // context strings of 0, 1, 2 and 300 bytes (every byte of a long context must reach every derivation)
+                    let ctx = rng.bytes([0usize, 1, 2, 300][(rep + bits) % 4]);
                     let key: [u8; 32] = rng.bytes(32).try_into().unwrap();
                     out.push(json!({"ev":"begin","bits":bits}));
                     let nin = 1 + rng.below(4) as usize;
